@@ -616,6 +616,8 @@ class TextXMetaModel(DebugPrinter):
                     e.col = col
                 if e.line is None:
                     e.line = line
+                if e.nchar is None:
+                    e.nchar = nchar
                 if e.filename is None:
                     e.filename = filename
                 raise e
